@@ -1310,3 +1310,101 @@ package kapacitor
 //@     invariant tm.taskToForkKeys != nil
 //@     invariant forall k forkKey, n string :: n != id && before(has(tm.forks, k) && has(tm.forks[k], n)) ==>
 //@       has(tm.forks, k) && has(tm.forks[k], n) && tm.forks[k][n] == before(tm.forks[k][n])
+
+// ---------------------------------------------------------------- window.go construction (C03, C05)
+// A count window is built with the validated size and step; it starts out satisfying the ring
+// invariant its Point method relies on.
+//@ func newWindowByCount
+//@   props C03 C05
+// (A size the allocator can satisfy is assumed: memory exhaustion is outside the model.)
+//@   requires period > 0 && every > 0 && period <= 281474976710656
+//@   modifies nothing
+//@   ensures result != nil && fresh(result) && result.period == period && result.every == every && len(result.buf) == period
+//@   ensures result.start == 0 && result.stop == 0 && result.size == 0 && result.count == 0 && result.nextEmit == ite(fillPeriod, period, every)
+
+// newWindow is given a validated definition (what pipeline.WindowNode.validate guarantees).
+//@ func newWindowByTime
+//@   trusted
+//@   modifies nothing
+//@   ensures result != nil
+//@ func (*WindowNode).newWindow
+//@   props C03 C05
+//@   requires n != nil && n.w != nil && first != nil
+//@   requires n.w.PeriodCount != 0 ==> n.w.PeriodCount > 0 && n.w.EveryCount > 0 && n.w.Period == 0 && n.w.PeriodCount <= 281474976710656
+
+// ---------------------------------------------------------------- change_detect.go (C10)
+// changeDetect: a point passes iff, for some watched field it carries, its value differs from the
+// value in the last point that passed (a missing previous value counts as different); a point
+// that passes becomes the new reference; nothing is copied or touched.
+//@ func (*ChangeDetectNode).changeDetect
+//@   props C10 C05
+//@   requires n != nil && n.d != nil && n.diag != nil
+//@   modifies nothing
+//@   ensures result == (exists i int :: 0 <= i && i < len(n.d.Fields) && has(curr, n.d.Fields[i]) && prev[n.d.Fields[i]] != curr[n.d.Fields[i]])
+//@   loop 1
+//@     modifies nothing
+//@     invariant 0 <= _i && _i <= len(n.d.Fields)
+//@     invariant forall i int :: 0 <= i && i < _i ==> !(has(curr, n.d.Fields[i]) && prev[n.d.Fields[i]] != curr[n.d.Fields[i]])
+//@ func (*changeDetectGroup).doChangeDetect
+//@   props C10 C05
+//@   requires g != nil && g.n != nil && g.n.d != nil && g.n.diag != nil && p != nil
+//@   modifies g.previous
+//@   ensures called(changeDetect) && result == callresult(changeDetect, 0) && callarg(changeDetect, 1) == p.Fields()
+//@   ensures old(g.previous) != nil ==> callarg(changeDetect, 0) == old(g.previous).Fields()
+//@   ensures old(g.previous) == nil ==> callarg(changeDetect, 0) == nil
+//@   ensures result ==> g.previous == p
+//@   ensures !result ==> g.previous == old(g.previous)
+//@ func (*changeDetectGroup).Point
+//@   props C10 C05
+//@   requires g != nil && g.n != nil && g.n.d != nil && g.n.diag != nil && p != nil && !gfi(p, mutated, bool)
+//@   ensures !gfi(p, mutated, bool) && result1 == nil
+//@   ensures callresult(doChangeDetect, 0) ==> result0 == p
+//@   ensures !callresult(doChangeDetect, 0) ==> result0 == nil
+
+// ---------------------------------------------------------------- alert.go batch form (C01)
+// "in both stream and batch form": a batch is one observation of the alert ID. Its level is the
+// highest level any of its points has (the lowest with all()), each point judged from the ID's
+// current level; then the same state machine step and emission rule as for a stream point, with
+// the time of the first point at the highest level (the batch time with all() or at OK).
+//@ spec rec batchMin(n *AlertNode, cur int, pts []edge.BatchPointMessage, k int) int =
+//@     ite(k <= 0, 3, min(batchMin(n, cur, pts, k-1), specLevel(n, cur, pts[k-1])))
+//@ spec rec batchMax(n *AlertNode, cur int, pts []edge.BatchPointMessage, k int) int =
+//@     ite(k <= 0, 0, max(batchMax(n, cur, pts, k-1), specLevel(n, cur, pts[k-1])))
+//@ spec batchEmitCond(a *alertState) bool =
+//@     ((a.changed && a.history[a.idx] == alert.OK)
+//@      || (a.history[a.idx] != alert.OK && !((a.n.a.UseFlapping && a.flapping) || (a.n.a.IsStateChangesOnly && !a.changed && !a.expired))))
+//@     && !(a.n.a.NoRecoveriesFlag && a.history[a.idx] == alert.OK)
+
+//@ func =(github.com/influxdata/kapacitor/edge.BufferedBatchMessage).ToResult
+//@   trusted
+//@   modifies nothing
+//@ func =(github.com/influxdata/kapacitor/edge.BufferedBatchMessage).ShallowCopy
+//@   trusted
+//@   modifies nothing
+//@   ensures result != nil
+//@ func =(github.com/influxdata/kapacitor/edge.BufferedBatchMessage).SetPoints
+//@   trusted
+//@   modifies nothing
+//@ func =(github.com/influxdata/kapacitor/edge.BufferedBatchMessage).SetBegin
+//@   trusted
+//@   modifies nothing
+
+//@ func (*alertState).BufferedBatch
+//@   props C01
+//@   requires alertStateOK(a) && b != nil
+//@   ensures [empty-batch] len(b.Points()) == 0 ==> !called(addEvent) && !called(handleEvent)
+//@   ensures [batch-level] called(addEvent) ==> alertStateOK(a)
+//@       && int(a.history[a.idx]) == old(ite(a.n.a.AllFlag, batchMin(a.n, int(a.history[a.idx]), b.Points(), len(b.Points())), batchMax(a.n, int(a.history[a.idx]), b.Points(), len(b.Points()))))
+//@       && a.changed == (old(a.history[a.idx]) != a.history[a.idx])
+//@       && a.idx == (old(a.idx) + 1) % len(a.history)
+//@   ensures [emitted-only-when] called(handleEvent) ==> batchEmitCond(a)
+//@   ensures [emitted-when] called(addEvent) && batchEmitCond(a) && result1 == nil ==> called(handleEvent)
+//@   ensures [event-carries] called(handleEvent) ==> callarg(event, 5) == a.history[a.idx] && callarg(event, 7) == time.Duration(a.lastTriggered - a.firstTriggered) && a.lastTriggered == callarg(event, 6)
+//@   loop 1
+//@     modifies nothing
+//@     invariant 0 <= _i && _i <= len(b.Points()) && 0 <= lowestLevel && lowestLevel <= 3 && 0 <= highestLevel && highestLevel <= 3
+//@     invariant int(lowestLevel) == batchMin(a.n, int(currentLevel), b.Points(), _i) && int(highestLevel) == batchMax(a.n, int(currentLevel), b.Points(), _i)
+//@     invariant _i > 0 ==> highestPoint != nil
+//@   loop 2
+//@     modifies elems(points)
+//@     invariant 0 <= _i && _i <= len(points)
